@@ -184,6 +184,51 @@ void h_TPGFP_clear(void)
   REACH("exit");
 }
 
+/* ---------------------------------------------------------------------------------------------
+ * Read accessors: the number of stored terms of EACH list is reported for that list (not the other one), the permutation returned is the
+ * part's own member.  Nothing is written.  (The monitor's n_calls stands for the list's size: clear() above sets it to 0.) */
+static inline unsigned long TermListNR_size(TermListNR *tl) { return tl->n_calls; }
+static inline unsigned long TermListR_size(TermListR *tl) { return tl->n_calls; }
+//@function Pomerol::TwoParticleGFPart::getNumNonResonantTerms() const as TwoParticleGFPart_getNumNonResonantTerms
+//@contract
+__CPROVER_requires(__CPROVER_is_fresh(self, sizeof(*self)))
+__CPROVER_assigns()
+__CPROVER_ensures(__CPROVER_return_value == self->NonResonantTerms.n_calls)
+//@end
+//@function Pomerol::TwoParticleGFPart::getNumResonantTerms() const as TwoParticleGFPart_getNumResonantTerms
+//@contract
+__CPROVER_requires(__CPROVER_is_fresh(self, sizeof(*self)))
+__CPROVER_assigns()
+__CPROVER_ensures(__CPROVER_return_value == self->ResonantTerms.n_calls)
+//@end
+//@function Pomerol::TwoParticleGFPart::getPermutation() const as TwoParticleGFPart_getPermutation
+//@contract
+__CPROVER_requires(__CPROVER_is_fresh(self, sizeof(*self)))
+__CPROVER_assigns()
+__CPROVER_ensures(__CPROVER_return_value == &self->Permutation)
+//@end
+//@harness h_TPGFP_getNumNR enforce=TwoParticleGFPart_getNumNonResonantTerms props=C02 min_obl=20 reach=1 timeout=120
+void h_TPGFP_getNumNR(void)
+{
+  struct TwoParticleGFPart *p;
+  unsigned long n = TwoParticleGFPart_getNumNonResonantTerms(p);
+  REACH("exit");
+}
+//@harness h_TPGFP_getNumR enforce=TwoParticleGFPart_getNumResonantTerms props=C02 min_obl=20 reach=1 timeout=120
+void h_TPGFP_getNumR(void)
+{
+  struct TwoParticleGFPart *p;
+  unsigned long n = TwoParticleGFPart_getNumResonantTerms(p);
+  REACH("exit");
+}
+//@harness h_TPGFP_getPermutation enforce=TwoParticleGFPart_getPermutation props=C02 min_obl=20 reach=1 timeout=120
+void h_TPGFP_getPermutation(void)
+{
+  struct TwoParticleGFPart *p;
+  const Permutation3 *r = TwoParticleGFPart_getPermutation(p);
+  REACH("exit");
+}
+
 /* =============================================================================================
  * The two kinds of terms themselves (TwoParticleGFPart.h).  All pins: doubles are uninterpreted (congruence), the spec expression is
  * written in the operand order of the documentation.
